@@ -9,7 +9,7 @@
      issued_call cfg es h i             es = es1 ++ FCall h me p :: es2, issued in a live state s0 = s_at es1, i = mk_id s0 (next_id s0)
    The k-th trace element of a run is the output of `step` in the state reached by the first k events (C03_trace_index). *)
 From Coq Require Import List NArith.
-From JV Require Import Base.Bytes Base.Dec Model.Wire Model.ClientMgr Proofs.ClientMgrInv Proofs.ClientMgrC03.
+From JV Require Import Base.Bytes Base.Dec Model.Wire Model.ClientMgr Proofs.ClientMgrInv Proofs.ClientMgrC03 Proofs.ClientMgrC18.
 Import ListNotations.
 Local Open Scope N_scope.
 
@@ -25,6 +25,19 @@ Theorem C03_keys_fresh : forall (idstr : bool) (qc bc : nat) (gate : bool) (es :
   Forall (fun x => forall h, ~ In (OComplete h (CErr EOccupied)) (fst x)) (snd (run (init idstr qc bc gate) es)).
 Proof. exact keys_fresh. Qed.
 Print Assumptions C03_keys_fresh.
+
+(* the premise under which "the response bearing its own id" is well defined: in every reachable state the ids of
+   outstanding single requests (table keys and queued messages; `queued_ids`, `queued_ranges`, `in_range` are in
+   Proofs/ClientMgrC18.v) are pairwise distinct, batch ranges are pairwise disjoint, and no single id lies in a batch range *)
+Theorem C03_wire_ids_distinct : forall (idstr : bool) (qc bc : nat) (gate : bool) (es : list ev),
+  let s := fst (run (init idstr qc bc gate) es) in
+  NoDup (map fst (requests (m s)) ++ queued_ids s) /\
+  (forall r1 r2, In r1 (map fst (batches (m s)) ++ queued_ranges s) -> In r2 (map fst (batches (m s)) ++ queued_ranges s) ->
+     r1 <> r2 -> forall n, ~ (in_range r1 n /\ in_range r2 n)) /\
+  (forall n r, In (mk_id s n) (map fst (requests (m s)) ++ queued_ids s) ->
+     In r (map fst (batches (m s)) ++ queued_ranges s) -> ~ in_range r n).
+Proof. exact wire_ids_distinct. Qed.
+Print Assumptions C03_wire_ids_distinct.
 
 (* routing, state form (any state, any event): a response completes handle h only if h is the waiter stored under the
    response's own id, and only while the client is alive *)
